@@ -19,6 +19,8 @@ int main(int argc, char **argv) {
   int prop = parse_prop(a.prop);
   static SmallSetInterp<TheS, TheSB> I(VF_NAME);
   I.relocate_enabled = (prop == 14);
+  for (int q = 1; q + 1 < argc; ++q)
+    if (!strcmp(argv[q], "--portability")) I.portability = atoi(argv[q + 1]);
   uint32_t w[kSmallSetNumOps];
   ss_weights(prop, w);
   return interp_main(argc, argv, I, w, kSmallSetNumOps, &set_feat_name);
